@@ -23,6 +23,21 @@ CHECKS = {
                   'leave validate in ascending order for every hash-map iteration order; every CFG path of the per-file closure that runs a validation step is shown to sort afterwards '
                   'and not to touch the vector again. Equality of trees/diagnostic sets across runs is outside the claim (needs HashMap under the solver).',
              note='Trusted: slice::sort_by_key is a stable sort; offsets and (line, column) are co-monotone if the key uses offsets.'),
+ 'C14': dict(engine='P (real LALR tables + validated driver model, path-forking symbolic execution; z3/CYK for error-free boxes) + native replay',
+             technique='symbolic execution of the table-driven parser with error recovery; z3 (QF_BV CYK) on error-free path boxes',
+             design='4/C14', category='model_checking',
+             text='Frames `package x; K x { good1 <W> T good2 }` for interface / parcelable / enum, three positions, several member forms: every window W of 1..4 (quick) / 1..5 '
+                  '(thorough) terminals is covered by path boxes on which the recovery behaviour is constant; per box: tree produced, both siblings reduced with exactly their own '
+                  'extents, >=1 error, all errors inside [W, T]; error-free boxes are shown well-formed by z3 against the reference grammar. Violating boxes are replayed natively.',
+             note='Trusted: the driver model of lalrpop_util 0.19.8 (validated per run on random token strings and on all witnesses); canonical lexeme rendering; lexing is outside.'),
+ 'C03': dict(engine='P (tables + driver model, one z3/CYK query per path) + L (lexer table -> z3 regex) + M (from_parse_error MIR) + native replay',
+             technique='symbolic execution of the real LALR tables; z3 QF_BV equivalence with a reference CYK; z3 regular expressions',
+             design='4/C03', category='model_checking',
+             text='For 15 syntactic slots (whole sequences, header, bodies, argument list, values, annotation / type parameters, names) every window up to 4-5 (quick) / 5-6 (thorough) '
+                  'terminals over the full vocabulary: the generated parser reports no syntax error exactly when an independent reference grammar derives the document (z3 per path box); '
+                  'no path ends without a tree and without an error; keywords/reserved words never lex as IDENT and all other identifier-shaped words do (unbounded, z3 regex); '
+                  'every non-User parse error becomes an Error diagnostic.',
+             note='Trusted: driver model (validated per run), reference grammar transcription, regex crate executing the generated patterns as written; whole-token lexing only.'),
 }
 
 NA = {
@@ -48,6 +63,8 @@ def main():
                'source_commits': list(reversed(hooks)), 'add_only': True},
      'engines': [
        {'name': 'M', 'path': 'lib/mir.py', 'serves_properties': ['C11', 'C17', 'C19', 'C20'], 'kind_free_text': 'nightly MIR of the current tree -> path-enumerating symbolic interpreter -> z3 (strings/integers)'},
+       {'name': 'P', 'path': 'lib/tables.py lib/lrdriver.py lib/pengine.py lib/refgrammar.py', 'serves_properties': ['C03', 'C14'], 'kind_free_text': 'LALR tables extracted from the generated parser of the current tree; model of the lalrpop_util driver incl. error recovery; path-forking symbolic execution; z3 CYK of a reference grammar'},
+       {'name': 'L', 'path': 'lib/lexl.py', 'serves_properties': ['C03'], 'kind_free_text': 'generated lexer pattern table -> z3 regular expressions'},
        {'name': 'replay', 'path': 'replay/', 'serves_properties': sorted(CHECKS), 'kind_free_text': 'native binary built against /repo (verif-hooks) that replays solver counterexamples through the public API'},
      ],
      'checks': [], 'not_applicable': [],
